@@ -51,9 +51,6 @@ LEVEL_NOTE = ('Trusted: Lean kernel + 3 standard axioms; AST translator and hand
 TECHNIQUE = 'Lean 4 proof over regenerated formulas and handler maps + differential correspondence on random histories'
 TRUSTED = ['C04: eos attribute values and running-effect sets are inputs of the stateless recomputation']
 
-KNOWN_NOSHIP = 'C04-noship-rps'
-
-
 # ------------------------------------------------------------------ histories
 def run_history(seed, rnd, steps, visit):
     """Build a world, apply prefill + random ops; call visit(world, step, ops_so_far) after every op."""
@@ -442,7 +439,7 @@ def check_effects(w, rnd, rep, case):
     # --- armor repairs (no damage profile): local repairers carried by the ship + remote ones targeting it
     try:
         want = 0
-        for it in items:
+        for it in (items if sh is not None else []):
             for e in it._type_effects.values():
                 if isinstance(e, LocalArmorRepairEffect) and e.id in it._running_effect_ids and it._solsys_carrier is sh:
                     want += e.get_rps(it, False)
@@ -499,18 +496,6 @@ def check_cycle_numbers(ctx):
         rep.case(sig=('ocyc', str(c), d, i, r) if avg and avg[False] is not None else None, kind='oracle-cycle')
 
 
-def _noship_rps(w, rep, case):
-    """Suspected defect: get_*_rps on a fit without ship raises AttributeError (every other stat answers 0)."""
-    if w.fit.ship is None and W.observe(w, ('rps', 'armor', 'default', False)) == 'E:AttributeError':
-        rep.dist['oracle:rps-without-ship-raises-AttributeError'] += 1
-        if any(k['id'] == KNOWN_NOSHIP for k in C.known_findings()):
-            rep.violate('fit.stats.get_armor_rps() raises AttributeError on a fit without ship', case, cls=KNOWN_NOSHIP)
-        elif not any('without ship' in n for n in rep.notes):
-            rep.notes.append('suspected defect (not a C04 law, not listed in known_findings.json): fit.stats.get_armor_rps()/'
-                             'get_shield_rps() with a damage profile raise AttributeError on a fit without ship; '
-                             'reproduce: Fit().stats.get_armor_rps()')
-
-
 def oracle(ctx, nh=None):
     rep = ctx.report
     nh = nh or ctx.n(60, 500)
@@ -526,7 +511,6 @@ def oracle(ctx, nh=None):
             check_laws(w, rnd, rep, case)
             check_recompute(w, rnd, rep, case)
             check_effects(w, rnd, rep, case)
-            _noship_rps(w, rep, case)
             rep.case(sig=('oracle', seed, s), kind='oracle-step')
         run_history(seed, rnd, steps, visit)
     check_cycle_numbers(ctx)
